@@ -10,6 +10,7 @@ import (
 	"go.minekube.com/gate/pkg/edition/java/netmc"
 	"go.minekube.com/gate/pkg/edition/java/proto/packet"
 	"go.minekube.com/gate/pkg/edition/java/proto/state"
+	"go.minekube.com/gate/pkg/edition/java/proxy/phase"
 	"go.minekube.com/gate/pkg/gate/proto"
 	"go.minekube.com/gate/pkg/util/netutil"
 	"go.minekube.com/gate/pkg/util/uuid"
@@ -29,6 +30,7 @@ type zzConn struct {
 	handler   netmc.SessionHandler
 	threshold int
 	secret    []byte
+	connType  phase.ConnectionType
 	onClose   func() // run once on the first Close (the real connection's read loop tears the session down)
 }
 
@@ -117,6 +119,8 @@ func (c *zzConn) EnableEncryption(secret []byte) error {
 	c.log = append(c.log, zzOp{kind: "enable-encryption", payload: c.secret})
 	return nil
 }
+func (c *zzConn) Type() phase.ConnectionType     { return c.connType }
+func (c *zzConn) SetType(t phase.ConnectionType) { c.connType = t }
 func (c *zzConn) SetAutoReading(bool)  {}
 func (c *zzConn) EnablePlayPacketQueue() {}
 
